@@ -14,8 +14,8 @@ from vf.taps.montap import montap
 
 LEVEL = "fault_enumeration"
 RULE = (
-    "fault enumeration: valid generated programs (a third of them with runs of statements moved into (nested) .include files) x 44 classes of definite error (invalid characters incl. NUL / DEL / non-ASCII, unterminated string, unknown keyword, "
-    "missing brace, a brace closed once too often, a misspelled .map attribute, missing operand, undefined symbol in a sized operand / in data, undefined macro, too few macro arguments, undefined symbol in a macro argument the body never reads, in an unused `=` symbol, in `*=`, unsupported "
+    "fault enumeration: valid generated programs (a third of them with runs of statements moved into (nested) .include files) x 50 classes of definite error (invalid characters incl. NUL / DEL / non-ASCII, unterminated string, unknown keyword, "
+    "missing brace, a brace closed once too often, a macro defined only in a branch / loop that is not assembled or below its application, a byte that is no valid UTF-8 inside a source file (file entry points), a misspelled .map attribute, missing operand, undefined symbol in a sized operand / in data, undefined macro, too few macro arguments, undefined symbol in a macro argument the body never reads, in an unused `=` symbol, in `*=`, unsupported "
     "addressing mode, unsupported width, out-of-range branch, unmapped address, missing .include/.incbin/.table/.include_ips file) inserted "
     "at every statement position that is always expanded (thorough) or 6 positions (quick) x 5 entry points (string API, Program.assemble, "
     "Program.assemble_as_patch, CLI -f ips and -f sfc in-process; CLI subprocess for a sample); each faulty run must fail visibly (error string / exception / "
@@ -67,6 +67,13 @@ FAULTS = {
     "del_character": ("syntax", "\x7f"),
     "non_ascii_character": ("syntax", "\u00e9"),
     "double_quoted_string": ("syntax", ".ascii \"abc\""),
+    "macro_defined_only_in_untaken_branch": ("semantic", ".if 0 {\n.macro dead_zz9(pv) {\n.db pv\n}\n}\ndead_zz9(1)"),
+    "macro_defined_only_in_untaken_else": ("semantic", ".if 1 {\nnop\n} else {\n.macro dead_zz9(pv) {\n.db pv\n}\n}\ndead_zz9(1)"),
+    "macro_defined_only_in_empty_loop": ("semantic", ".for kz9 := 0, 0 {\n.macro dead_zz9(pv) {\n.db pv\n}\n}\ndead_zz9(1)"),
+    "macro_applied_before_its_definition": ("semantic", "early_zz9(1)\n.macro early_zz9(pv) {\n.db pv\n}"),
+    # a byte that is no valid UTF-8 in code position (written as U+E0FF here, replaced by the byte FF in the file): file entry points only
+    "invalid_utf8_byte_in_a_number": ("bytes", ".dw 0x12\ue0ff34"),
+    "invalid_utf8_byte_in_a_label": ("bytes", "d\ue0ffbut_zz9:\n.dw d\ue0ffbut_zz9"),
     "extra_closing_braces_adjacent": ("syntax", "{\nnop\n}}"),
     "extra_closing_brace": ("syntax", "{\nnop\n}\n}"),
     "extra_closing_braces_after_scope": ("syntax", ".scope q9 {\nnop\n}}\nrts"),
@@ -183,6 +190,8 @@ def check_fault(res: Res, p: dict, name: str, where: tuple[list, int], entries: 
     finally:
         del lst[i]
     for entry in entries:
+        if FAULTS[name][0] == "bytes" and entry == "string":
+            continue          # the in-memory API takes text: there is no undecodable byte to hand it
         failed, announces, detail, obj, _ = run_entry(entry, src, files, rom)
         res.case((src, entry), True)
         res.count(f"fault[{name}]")
@@ -209,6 +218,9 @@ def run_shard(shard: dict) -> Res:
     usable = []
     for name in FAULTS:
         for rom in ("low",):
+            if FAULTS[name][0] == "bytes":
+                usable.append(name)
+                continue
             r = assemble("*=0x008000\n" + fault_text(name, rom) + "\n", rom=rom, files={"bad_zz9.ips": b"PATCX\x00\x00\x10\x00\x01\xaaEOF"})
             if r.ok:
                 res.violate("error-not-detected", f"the in-memory API accepts a program consisting of the definite error `{name}`", {"src": "*=0x008000\n" + fault_text(name, rom) + "\n", "entry": "string", "rom": rom, "fault": name, "files": {}})
@@ -230,7 +242,7 @@ def run_shard(shard: dict) -> Res:
             continue
         subs_left -= 1
         for name in usable:
-            syntax = FAULTS[name][0] == "syntax"
+            syntax = FAULTS[name][0] in ("syntax", "bytes")
             pts = [w for w in positions(p["prog"], syntax) if syntax or reachable(p["prog"], w[0])]
             if shard["positions"] is not None and len(pts) > shard["positions"]:
                 pts = rng.sample(pts, shard["positions"])
